@@ -15,6 +15,8 @@ import XotModel.Lemmas.Pretty
 import XotModel.Lemmas.PrettyWhere
 import XotModel.Lemmas.Doctype
 import XotModel.Lemmas.PrettyBetween
+import XotModel.Lemmas.Prolog
+import XotModel.Lemmas.XmlDeclRest
 
 namespace XotModel.Props
 open XotModel XotModel.Gen
@@ -427,5 +429,100 @@ theorem C14_pretty_fragment_text_gets_newline :
     (prettyTokens {} {} [] (.node .document [.node (.element 2) [], .node (.text ['x']) []]) []
       ).okValue?.map (fun l => l.map (fun k => (k.2.2.indentation, String.ofList k.2.2.text, k.2.2.newline)))
     = some [(0, "<", false), (0, "/>", false), (0, "", true), (0, "x", false)] := by decide
+
+/-! ### The prolog: declaration and doctype (`Declaration::serialize`, `DocType::serialize`) -/
+
+/-- (a) Shape: the declaration is `<?xml version="1.0"[ encoding="E"][ standalone="yes|no"]?>` + LF,
+    the doctype `<!DOCTYPE name PUBLIC "P" "S">` / `<!DOCTYPE name SYSTEM "S">` + LF, the parameter
+    strings copied literally. -/
+theorem C14_decl_shape (d : Declaration) (dt : DocType) (name : Str) :
+    d.bytes =
+      ['<','?','x','m','l',' ','v','e','r','s','i','o','n','=','"','1','.','0','"']
+      ++ (match d.encoding with
+          | some e => [' ','e','n','c','o','d','i','n','g','=','"'] ++ e ++ ['"']
+          | none => [])
+      ++ (match d.standalone with
+          | some true => [' ','s','t','a','n','d','a','l','o','n','e','=','"','y','e','s','"']
+          | some false => [' ','s','t','a','n','d','a','l','o','n','e','=','"','n','o','"']
+          | none => [])
+      ++ ['?','>','\n'] ∧
+    dt.bytes name =
+      ['<','!','D','O','C','T','Y','P','E',' '] ++ name
+      ++ (match dt with
+          | .pub p s => [' ','P','U','B','L','I','C',' ','"'] ++ p ++ ['"',' ','"'] ++ s ++ ['"']
+          | .sys s => [' ','S','Y','S','T','E','M',' ','"'] ++ s ++ ['"'])
+      ++ ['>','\n'] :=
+  ⟨Prolog.declaration_bytes d, Prolog.doctype_bytes dt name⟩
+
+/-- (c) The prolog never changes the content: a successful `serialize_xml_string` is the
+    declaration bytes, the doctype bytes (for the name `doctypeName` computes) and then exactly
+    the output of the same call without declaration and doctype — and conversely. -/
+theorem C14_decl_rest (esc : Escapers) (env : Env) (p : XmlParams) (t : Tree) (start : Path) :
+    (∀ s, serializeXmlStringWith esc env p t start = .ok s →
+      ∃ dt body, DoctypeWritten env p t start dt ∧
+        serializeXmlStringWith esc env p.body t start = .ok body ∧ s = p.declBytes ++ dt ++ body) ∧
+    (∀ dt body, DoctypeWritten env p t start dt →
+      serializeXmlStringWith esc env p.body t start = .ok body →
+      serializeXmlStringWith esc env p t start = .ok (p.declBytes ++ dt ++ body)) :=
+  ⟨fun s h => xmlString_split esc env p t start s h,
+   fun dt body h1 h2 => xmlString_join esc env p t start dt body h1 h2⟩
+
+/-- (b) Well-formedness of the prolog against the XML 1.0 grammar (`Prolog.xmlDecl`: productions
+    23–26, 32, 80, 81; `Prolog.doctypeDecl`: 28, 75, 11–13, 5).  Caller's side: the encoding is an
+    `EncName`, the public identifier consists of `PubidChar`s, the system identifier has no `"`;
+    and the root element's written name is an XML `Name`.  Then the output starts with an `XMLDecl`
+    (when requested) followed by a `doctypedecl` (when requested), each read exactly up to the
+    line break the writer appends, and what follows is the output without prolog. -/
+theorem C14_decl (esc : Escapers) (env : Env) (p : XmlParams) (t : Tree) (start : Path) (s : Str)
+    (h : serializeXmlStringWith esc env p t start = .ok s)
+    (henc : ∀ d e, p.declaration = some d → d.encoding = some e → Prolog.isEncName e = true)
+    (hids : ∀ d, p.doctype = some d → Prolog.idsOk d = true)
+    (hname : ∀ name, doctypeName env t start = .ok name → Prolog.isXmlName name = true) :
+    ∃ dt body, serializeXmlStringWith esc env p.body t start = .ok body ∧
+      s = p.declBytes ++ dt ++ body ∧
+      (∀ d, p.declaration = some d → Prolog.xmlDecl s = some ('\n' :: (dt ++ body))) ∧
+      (p.declaration = none → p.declBytes = []) ∧
+      (∀ d, p.doctype = some d → Prolog.doctypeDecl (dt ++ body) = some ('\n' :: body)) ∧
+      (p.doctype = none → dt = []) := by
+  obtain ⟨dt, body, hdt, hb, hs⟩ := xmlString_split esc env p t start s h
+  refine ⟨dt, body, hb, hs, ?_, ?_, ?_, ?_⟩
+  · intro d hd
+    rw [hs, List.append_assoc]
+    simp only [XmlParams.declBytes, hd]
+    exact Prolog.xmlDecl_written d _ (fun e he => henc d e hd he)
+  · intro hd; simp [XmlParams.declBytes, hd]
+  · intro d hd
+    simp only [DoctypeWritten, hd] at hdt
+    obtain ⟨name, hn, rfl⟩ := hdt
+    exact Prolog.doctypeDecl_written d name body (hname name hn) (hids d hd)
+  · intro hd; simpa [DoctypeWritten, hd] using hdt
+
+/-- The hypotheses of `C14_decl` are necessary, by closed witnesses: the strings are copied
+    literally, so an encoding or identifier containing `"` ends its literal early, and a quote-free
+    encoding that is no `EncName` (`é`, the empty string, `a b`) or a public identifier with a
+    non-`PubidChar` (`<`) is no `XMLDecl` / `doctypedecl` either. -/
+theorem C14_decl_necessary :
+    (⟨some ['x','"','y'], none⟩ : Declaration).bytes =
+      ['<','?','x','m','l',' ','v','e','r','s','i','o','n','=','"','1','.','0','"',
+       ' ','e','n','c','o','d','i','n','g','=','"','x','"','y','"','?','>','\n'] ∧
+    Prolog.xmlDecl ((⟨some ['x','"','y'], none⟩ : Declaration).bytes) = none ∧
+    Prolog.xmlDecl ((⟨some ['é'], none⟩ : Declaration).bytes) = none ∧
+    Prolog.xmlDecl ((⟨some [], none⟩ : Declaration).bytes) = none ∧
+    Prolog.xmlDecl ((⟨some ['a',' ','b'], some true⟩ : Declaration).bytes) = none ∧
+    Prolog.doctypeDecl ((DocType.sys ['x','"','y']).bytes ['a']) = none ∧
+    Prolog.doctypeDecl ((DocType.pub ['p','"','q'] ['d']).bytes ['a']) = none ∧
+    Prolog.doctypeDecl ((DocType.pub ['p','<','q'] ['d']).bytes ['a']) = none :=
+  ⟨Prolog.xmlDecl_quote_witness.1, Prolog.xmlDecl_quote_witness.2, Prolog.xmlDecl_encname_witness.1,
+   Prolog.xmlDecl_encname_witness.2.1, Prolog.xmlDecl_encname_witness.2.2,
+   Prolog.doctypeDecl_quote_witness.1, Prolog.doctypeDecl_quote_witness.2.1,
+   Prolog.doctypeDecl_quote_witness.2.2⟩
+
+/-- Non-vacuity of `C14_decl`: `<?xml version="1.0" encoding="UTF-8" standalone="no"?>` and
+    a doctype `a:b` with a W3C-style public identifier and the system identifier `a>b<c.dtd` are accepted. -/
+example : Prolog.xmlDecl ((⟨some ['U','T','F','-','8'], some false⟩ : Declaration).bytes ++ ['<','a','/','>'])
+    = some ['\n','<','a','/','>'] := by decide
+example : Prolog.isEncName ['U','T','F','-','8'] = true ∧
+    Prolog.idsOk (.pub ['-','/','/','W','3','C','/','/','D','T','D',' ','X',' ','1','.','0','/','/','E','N']
+      ['a','>','b','<','c','.','d','t','d']) = true ∧ Prolog.isXmlName ['a',':','b'] = true := by decide
 
 end XotModel.Props
